@@ -112,3 +112,13 @@ type Preferred struct {
 	IdCustomer IdCustomer `gomacro-sql-on-delete:"CASCADE"`
 	IdProduct  int64      `gomacro-sql-foreign:"Product" gomacro-sql-on-delete:"CASCADE"`
 }
+
+// Catalog refers to a product by the pair of columns that is unique there
+// (a user constraint of Product); its table name sorts before "products".
+// gomacro:SQL ADD FOREIGN KEY (Sku, Variant) REFERENCES Product (Sku, Variant)
+type Catalog struct {
+	Id      int64
+	Sku     string
+	Variant int16
+	Page    int
+}
